@@ -88,11 +88,9 @@ func f4cPool() []f4cOp {
 		case "conv":
 			op.class = "conv"
 		case "bitcast":
-			// bit patterns of small floats reinterpreted as integers and back are exact; integer ->
-			// float bitcasts of small integers give subnormals, which WGSL lets flush: excluded
-			if s.ret.S == F32 && s.args[0].S != F32 {
-				continue
-			}
+			// integer -> float bitcasts: the operand alphabet is the bit patterns of ordinary floats (small
+			// integers would give subnormals, which WGSL lets flush; computed operands that do are masked by
+			// the comparison, which skips subnormal/inf/nan expectations)
 			op.class = "bitcast"
 		case "call":
 			switch p[1] {
@@ -123,6 +121,9 @@ func f4cPool() []f4cOp {
 				op.alpha[1] = fbits(1, -1.5, 2.5)
 			}
 			// `%` with a negative dividend is undefined in GLSL; both signs stay in (GLSL excuses itself)
+		}
+		if op.class == "bitcast" && s.ret.S == F32 && s.args[0].S != F32 {
+			op.alpha[0] = []uint32{0x3F800000, 0x40200000, 0xBFC00000, 0x41700000, 0}
 		}
 		if op.class == "shift" {
 			op.alpha[1] = []uint32{0, 1, 5} // no overflow into the sign bit: INT_MIN operands are C15's subject
@@ -190,6 +191,16 @@ func f4cBump(st *Type) (*Func, Global) {
 		&Return{X: &Bin{Op: "+", L: L("v", st), R: c(), Ty: st}},
 	}}
 	return f, Global{Name: cnt, Space: "private", Ty: st}
+}
+
+// f4cStructural: operators whose emission depends on the shape of their operands rather than on arithmetic —
+// their vector forms are part of the quick tier.
+func f4cStructural(op *f4cOp) bool {
+	switch op.class {
+	case "select", "bitcast", "conv", "swz", "idx", "cons":
+		return true
+	}
+	return false
 }
 
 func f4cCompose(o, in *f4cOp, p int, both bool) opSpec {
@@ -285,7 +296,7 @@ func f4cBuildAll() {
 					continue // bit patterns of computed floats (-0.0 vs 0.0) are not pinned down by WGSL
 				}
 				c := f4cCompose(o, in, p, false)
-				if scalarOnly(o) && scalarOnly(in) {
+				if (scalarOnly(o) && scalarOnly(in)) || f4cStructural(o) || f4cStructural(in) {
 					quick = append(quick, c)
 				} else {
 					rest = append(rest, c)
